@@ -7,7 +7,8 @@ import shutil
 
 import numpy as np
 
-from . import meshsim, repo, seams, simclock, simdisk, simmp, simset
+from . import (meshsim, repo, seams, simclock, simcrash, simdisk, simmp,
+               simset)
 from .core import H, SkipRun, Violation, scratch_root, stream
 
 PROP = 'C17'
@@ -167,9 +168,11 @@ class World:
     expected content of every complete cache file, reference memo."""
     def __init__(self, run, cov, log):
         seams.install()
+        simcrash.install()
         self.run = run
         self.cov = cov
         self.log = log
+        self.snap = None
         _run_counter[0] += 1
         self.root = os.path.join(
             scratch_root(), 'run-{}-{}'.format(os.getpid(), _run_counter[0]))
@@ -259,7 +262,27 @@ class World:
                         'first_op': prev[0][:3],
                         'second_op': opkey[:3]
                     })
+        # files that appeared or changed during the op without passing the
+        # save seam (memory maps, open(), ...): if they load, they are cache
+        # entries of this op and must hold its result
+        seen_written = set(simdisk.STATE['written'])
+        for path, dg_file in self.listing().items():
+            if path in seen_written or not path.endswith('.npy'):
+                continue
+            if self.before.get(path) == dg_file:
+                continue
+            arr = simdisk.try_load(path)
+            if arr is None:
+                continue
+            self.cov.inc('probe.cache_file_written_behind_the_seam')
+            if arr.shape != R.shape or not np.array_equal(arr, R):
+                self.viol('cache-poisoned', site + '/unseen-write', {
+                    'file': self.fileno(os.path.basename(path)),
+                    'shape': arr.shape, 'want_shape': R.shape})
+            self.expected[path] = (opkey, dg)
         for path in simdisk.STATE['written']:
+            if not os.path.exists(path):
+                continue  # thrown away with the dead session
             arr = simdisk.try_load(path)
             if arr is None:
                 self.viol('cache-file-invalid', site,
@@ -297,19 +320,56 @@ class World:
             self.viol('array-mismatch', site, d)
 
     # ---------------------------------------------------------------- ops --
+    def snapshot(self, kind=None):
+        """The process dies now: the disk as it is at this instant is what
+        survives (later writes of the dead session are thrown away)."""
+        self.snap = os.path.join(self.root, 'snapshot')
+        shutil.rmtree(self.snap, ignore_errors=True)
+        os.makedirs(self.snap)
+        for k, d in enumerate(self.dirs):
+            if os.path.isdir(d):
+                shutil.copytree(d, os.path.join(self.snap, 'd{}'.format(k)))
+        simdisk.STATE['dead'] = True
+        if kind in ('bilform', 'linform', 'pool_item'):
+            self.cov.inc('fault.crash_at_compute_step.' + kind)
+
+    def restore(self):
+        for k, d in enumerate(self.dirs):
+            src = os.path.join(self.snap, 'd{}'.format(k))
+            shutil.rmtree(d, ignore_errors=True)
+            if os.path.isdir(src):
+                shutil.copytree(src, d)
+        shutil.rmtree(self.snap, ignore_errors=True)
+        self.snap = None
+
+    def listing(self):
+        out = {}
+        for d in self.dirs:
+            if os.path.isdir(d):
+                for f in os.listdir(d):
+                    p = os.path.join(d, f)
+                    with open(p, 'rb') as fh:
+                        out[p] = hashlib.md5(fh.read()).hexdigest()
+        return out
+
     def arm(self, op):
         f = op.get('faults') or {}
-        crash = op.get('crash')
+        crash = op.get('crash') or {}
+        self.snap = None
+        self.before = self.listing()
         simmp.arm(op.get('workers', 4),
                   H(op.get('sched_seed', 0)),
                   fork_fault=bool(f.get('fork')),
                   stats=self.cov,
-                  clock=simclock.CLOCK)
+                  clock=simclock.CLOCK,
+                  on_item=simcrash.step)
         simdisk.arm(stats=self.cov,
-                    crash_at=crash['at_event'] if crash else None,
-                    crash_torn=crash.get('torn') if crash else None,
+                    crash_at=crash.get('at_event'),
+                    crash_torn=crash.get('torn'),
                     save_fault=f.get('save'),
-                    load_fault=f.get('load'))
+                    load_fault=f.get('load'),
+                    on_crash=self.snapshot)
+        simcrash.arm(crash_at=crash.get('at_step'), on_crash=self.snapshot)
         simset.reseed(H(op.get('set_seed', 0)))
 
     def step(self, op):
@@ -392,11 +452,14 @@ class World:
         self.log.append((op['op'], R.shape,
                          [(t[1], self.fileno(t[2]), t[3]) for t in tr],
                          simmp.STATE['log']))
+        simcrash.arm()
         if simdisk.STATE['dead']:
             # crashed session: whatever it returned is discarded unseen;
-            # only the disk survives
+            # only the disk -- as it was at the instant of death -- survives
             s.dead = True
             cov.inc('probe.crash')
+            if self.snap is not None:
+                self.restore()
             self.check_files(s, opkey, R, site + '/crashed')
             return
         if err is not None:
@@ -587,7 +650,8 @@ def gen_faults(rng, params, use_mp):
         f['load'] = rng.choice(['EIO', 'EACCES', 'ENOENT'])
     if use_mp and rng.random() < 0.04:
         f['fork'] = True
-    if rng.random() < 0.12:
+    r = rng.random()
+    if r < 0.10:
         crash = {
             'at_event': rng.choice([1, 2, 2, 2]),
             'torn': {
@@ -595,6 +659,10 @@ def gen_faults(rng, params, use_mp):
                 'u': rng.random()
             }
         }
+    elif r < 0.17:
+        # the process dies between two I/O events, after this many pair /
+        # element evaluations or pool results
+        crash = {'at_step': rng.choice([1, 2, 3, 5, 8, 13, 30, 80, 150])}
     return (f or None), crash
 
 
@@ -615,7 +683,21 @@ def gen_run(seed, params):
     sess = {}  # sid -> dict(curve, n, dir, pool of selections)
     twin = rng.random() < params.get('p_twin', 0.15)
     twin_problems = (not twin) and rng.random() < params.get(
-        'p_twin_problems', 0.06)
+        'p_twin_problems', 0.09)
+    # ... either in one directory (two problems, one operator configuration)
+    # or in two directories with different operator configurations (two
+    # operators in one process on identical meshes)
+    twin_two_dirs = twin_problems and rng.random() < 0.5
+    if twin_two_dirs and n_dirs == 1:
+        n_dirs = 2
+        dirs.append({
+            'pw_exact': not dirs[0]['pw_exact'],
+            'quad_order': rng.choice(
+                [q for q in (4, 6, 8, 12) if q != dirs[0]['quad_order']]),
+            'quad_int': rng.choice([2, 3, 4]),
+            'u0': rng.choice(['one', 'sine', 'poly']),
+            'missing': False,
+        })
     lookalike = (not twin) and (not twin_problems) and rng.random() < (
         params.get('p_lookalike', 0.08))
     n_sessions = 2 if twin or rng.random() < 0.25 else 1
@@ -637,8 +719,8 @@ def gen_run(seed, params):
             # invocations do: only the label keeps their load vectors apart
             curve = sess[0]['curve'] if sid else rng.choice(list(WITH_DOMAIN))
             hist = sess[0]['hist'] if sid else gen_history(
-                rng, curve, rng.choice([8, 10, 12]))[0]
-            d = 0
+                rng, curve, rng.choice([6, 8, 10, 12]))[0]
+            d = sid if twin_two_dirs else 0
         else:
             curve = rng.choice(params.get(
                 'curves',
@@ -781,6 +863,12 @@ def gen_run(seed, params):
             continue
         # single-layer matrix op: sizes on both sides of N*M = 100
         reuse = S['sels'] and rng.random()
+        if twin_problems and sess[1 - sid]['sels'] and rng.random() < 0.7:
+            # the same call on the twin session (other operator object)
+            test, trial = rng.choice(sess[1 - sid]['sels'])
+            S['sels'].append((test, trial))
+            ops.append(dict(base, op='slm', test=test, trial=trial))
+            continue
         if reuse and reuse < 0.35:
             test, trial = rng.choice(S['sels'])
         elif reuse and reuse < 0.55:
